@@ -1,9 +1,9 @@
 SPECIFICATION Spec
 CONSTANTS
-  Fmt = "o5m"
+  Fmt = "opl"
   MaxFaults = 2
   WithTrunc = TRUE
-  TruncAfterFault = FALSE
+  TruncAfterFault = TRUE
   ExportHist = TRUE
 INVARIANTS TypeOK Applicable DistinctPositions TruncOK Export
 CHECK_DEADLOCK FALSE
